@@ -8,6 +8,31 @@ HERE = os.path.dirname(os.path.dirname(os.path.abspath(__file__)))
 
 # id -> (level, engine, technique, level_text, level_note, design_ref)
 CHECKS = {
+    "C01": (
+        "exploration", "enum",
+        "bounded-exhaustive enumeration of small arrays x value embeddings x all construction/read-back options, plus a parametrised family reaching the row-scan strategy; identity oracle",
+        "Every array of up to 5 cells-per-axis bounds over a 3-value abstract alphabet is embedded at every dtype boundary (255/256, 65535/65536, 2^31, 2^32, 2^62, "
+        "negatives) and crossed with every option combination (common omitted/each/absent, counts, five mappings incl. many-to-one, five read-backs); a second family "
+        "(80-120 cells, >=5 values, <=5% uncommon at every slot subset) reaches the row-scan strategy, confirmed by line coverage. 1.3M round trips in the quick tier.",
+        "Non-negative data values in [2^31,2^33) only in a handful of cases (bincount over 16 GiB); INT64_MAX excluded (NumPy bincount overflow).",
+        "7 (C01)",
+    ),
+    "C02": (
+        "exploration", "enum",
+        "bounded-exhaustive enumeration of dimension lists (0..4 dims, 1..3 axes, every common incl. absent, explicit and inferred shape) vs brute-force contingency table",
+        "For each listed configuration every data array and every common value per dimension is enumerated (79k cubes quick), so every combination of sparsity "
+        "pattern and common choice - which is what the marginal-differencing identity must survive - is decided within the bounds, through both report formats.",
+        "Rows <= 3-4, categories <= 2-3 (+ boundary extents 256/257/65536/65537); indexes built by the harness builder.",
+        "7 (C02)",
+    ),
+    "C14": (
+        "exploration", "enum",
+        "bounded-exhaustive enumeration of 1..4 one-axis dimensions x all data x all commons; multiset oracle from the set comprehension in the statement",
+        "Every data vector and common value for 1..4 dimensions (N<=3, E=2; deeper in thorough) is walked through interactions(), walk(f) and walk([f,g]); the "
+        "delivered (coords, rows) multiset must equal the comprehension, so a missing or duplicated marginal combination cannot cancel.",
+        "Well-formed one-axis dimensions only.",
+        "7 (C14)",
+    ),
     "C08": (
         "exploration", "enum",
         "bounded-exhaustive enumeration of all operand pairs/lists over small universes vs. set-algebra reference model",
